@@ -256,6 +256,19 @@ def updateStreamAfterWrite (s : St) (id hb : Nat) (outs : List Out) : Res :=
     if s.quota id ≤ 0 then ⟨s.setStr id { x with state := .waiting }, outs, .tick false⟩
     else ⟨{ s with active := s.active ++ [id] }, outs, .tick false⟩
 
+/-- Second half of `processData`: `hSize` bytes of `dataItem.h` and `dSize` bytes of the reader go out in one DATA frame
+(`str.wq.replenish(size)`, `onEachWrite`, `framer.writeData`, `bytesOutStanding += size`, `sendQuota -= size`,
+`dataItem.h = dataItem.h[hSize:]`, `reader.Discard(dSize)`, dequeue when nothing remains), then `updateStreamAfterWrite`.
+`s` is the state after the stream was taken off `activeStreams`; its head item is `Item.data off h d es` followed by `tl`. -/
+def writeChunk (s : St) (id hb off h d : Nat) (es : Bool) (tl : List Item) (hSize dSize : Nat) : Res :=
+  let x := s.str id
+  let rem := h + d - hSize - dSize
+  let size := hSize + dSize
+  let items' := if rem = 0 then tl else .data (off + size) (h - hSize) (d - dSize) es :: tl
+  let x' := { x with items := items', bytesOut := x.bytesOut + size, repl := x.repl + size }
+  let s2 := { s with sendQuota := s.sendQuota - size }.setStr id x'
+  updateStreamAfterWrite s2 id hb [.cb .onEachWrite id, .data id off size (es && rem == 0)]
+
 /-- `processData`. -/
 def processData (s : St) (hb : Nat) : Res :=
   if s.sendQuota = 0 then ⟨s, [], .tick true⟩ else
@@ -275,13 +288,7 @@ def processData (s : St) (hb : Nat) : Res :=
         let maxSize := min (min maxFrameLen (max strQuota 0).toNat) s.sendQuota
         let hSize := min maxSize h
         let dSize := min (maxSize - hSize) d
-        let rem := h + d - hSize - dSize
-        let size := hSize + dSize
-        let items' := if rem = 0 then tl else .data (off + size) (h - hSize) (d - dSize) es :: tl
-        let x' := { x with items := items', bytesOut := x.bytesOut + size, repl := x.repl + size }
-        let s2 := { s1 with sendQuota := s.sendQuota - size }.setStr id x'
-        updateStreamAfterWrite s2 id hb
-          [.cb .onEachWrite id, .data id off size (es && rem == 0)]
+        writeChunk s1 id hb off h d es tl hSize dSize
 
 /-- `handle`'s type switch / `processData`. -/
 def handleItem (s : St) : Op → Res
